@@ -206,6 +206,15 @@ func genBPProg(r *RNG) *Prog {
 			addI(p, must(x86.ADDQ(vs[j], vs[0])), nil)
 		}
 	}
+	// the function may also make a call or a system call: the frame rule does not depend on it
+	switch r.Intn(6) {
+	case 0:
+		addI(p, must(x86.SYSCALL()), nil)
+		p.Tags["syscall"] = true
+	case 1:
+		addI(p, must(x86.CALL(operand.LabelRef("runtime·nanotime1(SB)"))), nil)
+		p.Tags["call"] = true
+	}
 	addI(p, must(x86.RET()), nil)
 	return p
 }
